@@ -169,16 +169,18 @@ Definition strip_sign (s : str) : bool * str :=
   | [] => (false, [])
   end.
 Definition dval (s : str) : Z := match horner s 0 with Some v => v | None => 0 end.
-(* Some (exact value in subunits) if s is in the grammar *)
+(* Some (exact value in subunits) if s is in the grammar: the text is split at '.', the integral part
+   is an optional sign followed by one or more digits, the optional fractional part is 1..SCALE digits *)
 Definition grammar_value (f : fmt) (s : str) : option Z :=
-  let '(neg, body) := strip_sign s in
-  match split_dot body [] with
+  match split_dot s [] with
   | [ip] =>
-      if nonempty ip && all_digits ip then Some ((if neg then -1 else 1) * (dval ip * one f)) else None
+      let '(neg, ib) := strip_sign ip in
+      if nonempty ib && all_digits ib then Some ((if neg then -1 else 1) * (dval ib * one f)) else None
   | [ip; fp] =>
-      if nonempty ip && all_digits ip && nonempty fp && all_digits fp
+      let '(neg, ib) := strip_sign ip in
+      if nonempty ib && all_digits ib && nonempty fp && all_digits fp
          && (Z.of_nat (length fp) <=? scale f)
-      then Some ((if neg then -1 else 1) * (dval ip * one f + dval fp * 10 ^ (scale f - Z.of_nat (length fp))))
+      then Some ((if neg then -1 else 1) * (dval ib * one f + dval fp * 10 ^ (scale f - Z.of_nat (length fp))))
       else None
   | _ => None
   end.
